@@ -11,6 +11,7 @@ import (
 func init() { props["C03"] = runC03 }
 
 func runC03(c *Ctx) {
+	defer withDisturb(c)()
 	runPinned(c, "C03")
 	n := int64(72000)
 	if c.Thorough() {
